@@ -437,10 +437,16 @@ func (c *Float) Ident() string {
 	default:
 		panic(fmt.Errorf("support for floating-point kind %v not yet implemented", c.Typ.Kind))
 	}
+	// LLVM reads a decimal literal as a double. The shortest decimal that
+	// identifies the value at the precision of c.X (11 or 24 bits for half and
+	// float) may denote another double (e.g. 3.355443e+07 for the float 2^25),
+	// so the digits are produced at double precision; the conversion is exact,
+	// since the value is representable in its own kind.
+	x := new(big.Float).SetPrec(53).Set(c.X)
 	// Insert decimal point if not present.
 	//    3e4 -> 3.0e4
 	//    42  -> 42.0
-	s := c.X.Text('g', -1)
+	s := x.Text('g', -1)
 	if !strings.ContainsRune(s, '.') {
 		if pos := strings.IndexByte(s, 'e'); pos != -1 {
 			s = s[:pos] + ".0" + s[pos:]
